@@ -330,8 +330,14 @@ func (nfc *NfcSession) ReadFile(fileId uint16) (fileData []byte, err error) {
 			return nil, fmt.Errorf("[ReadFile] TLV length exceeds permitted maximum (len:%1d, max:%1d)", tmpTlvLength, nfc.readFileMaxTlvLength)
 		}
 
+		// indefinite length (-1) cannot be used to size the read
+		if tmpTlvLength < 0 {
+			return nil, fmt.Errorf("[ReadFile] Indefinite-length file header is not supported")
+		}
+
+		// header bytes = bytes consumed from what the chip actually returned (may be fewer than 4)
 		totalBytes = int(tmpTlvLength)
-		totalBytes += 4 - tmpBuf.Len()
+		totalBytes += len(fileHeader) - tmpBuf.Len()
 	}
 
 	// read remainder of file
@@ -390,6 +396,9 @@ func (nfc *NfcSession) ReadFile(fileId uint16) (fileData []byte, err error) {
 		if len(fileData) != totalBytes {
 			return nil, fmt.Errorf("[ReadFile] Data read differs to expected length (exp:%d, act:%d)", totalBytes, len(fileData))
 		}
+	} else {
+		// the whole file was returned by the header read
+		fileData = bytes.Clone(fileBuf.Bytes()[:totalBytes])
 	}
 
 	slog.Debug("ReadFile", "fileId", fileId, "data", utils.BytesToHex(fileData))
